@@ -147,7 +147,7 @@ CHECKS = {
             "entry style x filter, then Apply); every behaviour replayed on natively built host queries with the real "
             "shorthands; rows/order/annotations/join count compared with the spec (Rel!EvalR); import-order histories of "
             "sqlalchemy.func in fresh subprocesses",
-            "Exhaustive: all 35k behaviours of the machine (7 entry styles incl. column-subset bases, 3 base conditions, "
+            "Exhaustive: all 35k behaviours of the machine (8 entry styles incl. column-subset and aggregating bases, 3 base conditions, "
             "5 pre-joins, ordering, annotation, 10 filters + 3 comparisons on a path through a collection whose result is a "
             "bag of base rows); the host's own query object is evaluated again afterwards; 19 host func names compared "
             "(class, type, rendering, value on a fresh SQLite connection) before/after importing the backend, in both import orders.",
